@@ -70,6 +70,7 @@ From Flocq Require Import Core BinarySingleNaN PrimFloat.
 From PV Require Import proofs.FloatFacts proofs.WrapFloat.
 From PV Require Import proofs.PackingFacts.
 From PV Require Import gen.GenFns proofs.SourceFacts.
+From PV Require Import model.Iter proofs.SearchFacts.
 
 Theorem C15_F_wrap_range :
   forall x : F, is_finite (Prim2B x) = true -> (Rabs (B2R (Prim2B x)) <= 2251799813685248)%R ->
@@ -112,4 +113,11 @@ Theorem C15_source_translated :
   gen_fns_problem = String.EmptyString.
 Proof. exact source_translated. Qed.
 Print Assumptions C15_source_translated.
+
+
+Theorem C15_positions_is_source :
+  forall (NN : Num) (syms : list (tf NN)) (s : site NN), gen_positions NN syms s = positions NN
+    syms s.
+Proof. exact positions_is_source. Qed.
+Print Assumptions C15_positions_is_source.
 
